@@ -15,7 +15,9 @@ use std::time::{Duration, SystemTime, UNIX_EPOCH};
 use crate::CacheError;
 
 fn storage_bucket(t: Time) -> i64 {
-    (t.unix() + 1) as i64
+    // A deadline beyond the representable range (a TTL of `Duration::MAX`, which is also
+    // what `get_ttl` reports for an entry without one) is filed under the last bucket.
+    t.unix().saturating_add(1).min(i64::MAX as u64) as i64
 }
 
 fn cleanup_bucket(t: Time) -> i64 {
@@ -52,7 +54,7 @@ impl Time {
     pub fn unix(&self) -> u64 {
         self.created_at
             .duration_since(UNIX_EPOCH)
-            .map(|d| d + self.d)
+            .map(|d| d.saturating_add(self.d))
             .unwrap()
             .as_secs()
     }
